@@ -3,7 +3,9 @@
   common_types.go, objects.MessageContainer/GzipPacked.UnmarshalTL), with explicit error and panic
   outcomes. The Go decoder keeps a sticky error (`d.err`): after the first failed read every further
   `Pop*` is a no-op and the entry points report the error, so the model short-circuits on the first
-  error. `gunzip` is a parameter (compress/gzip is not modelled).
+  error. `gunzip` is a parameter (compress/gzip is not modelled). A packed object inside a packed object is decoded by
+  a decoder of its own that knows how deep it is (`Decoder.DecodeNestedObject`); beyond `maxNestedDecoders`
+  levels the data is refused.
 -/
 import Mtv.TL.Types
 namespace Mtv.TL
@@ -124,11 +126,17 @@ def convertible (R : Registry) (nm : String) : Val → Bool
   | .vec _ _ => nm == "tl.Object"
   | _ => false
 
+/-- `maxNestedDecoders` (decoder.go): how many packed objects may enclose a packed object that is still
+decoded. The root decoder has depth 0; the decoder of the object inside a packed object has the depth of
+the enclosing decoder + 1; a decoder of depth `maxNestedDecoders` refuses to open a packed object. -/
+def maxNestedDecoders : Nat := 4
+
 mutual
-/-- `decodeValue` at a field / element of Go type `ty` -/
-def decVal (R : Registry) (gunzip : Bytes → Option Bytes) : Nat → Ty → Bytes → List Ty → DRes Val
-  | 0, _, _, _ => .err "fuel"
-  | fuel + 1, ty, bs, hs =>
+/-- `decodeValue` at a field / element of Go type `ty`. In all six functions the first `Nat` is the depth
+of the decoder (`Decoder.depth`: how many packed objects enclose the data being read), the second the fuel. -/
+def decVal (R : Registry) (gunzip : Bytes → Option Bytes) : Nat → Nat → Ty → Bytes → List Ty → DRes Val
+  | _, 0, _, _, _ => .err "fuel"
+  | dp, fuel + 1, ty, bs, hs =>
     match ty with
     | .int32 | .uint32 | .enum _ =>
       match popUint bs with
@@ -176,7 +184,7 @@ def decVal (R : Registry) (gunzip : Bytes → Option Bytes) : Nat → Ty → Byt
       | .panic s => .panic s
       | .ok (crc, r) =>
         if crc ≠ crcVector then .err "notVector"
-        else decVecBody R gunzip fuel e r hs
+        else decVecBody R gunzip dp fuel e r hs
     | .ptr id =>
       match R.find id with
       | none => .err "unsupported"
@@ -188,10 +196,10 @@ def decVal (R : Registry) (gunzip : Bytes → Option Bytes) : Nat → Ty → Byt
           | .panic s => .panic s
           | .ok (crc, r) =>
             if crc ≠ d.id then .err "invalidCrc"
-            else decStruct R gunzip fuel d r hs
+            else decStruct R gunzip dp fuel d r hs
         | _ => .err "unsupported"
     | .iface nm =>
-      match decRegistered R gunzip fuel bs hs with
+      match decRegistered R gunzip dp fuel bs hs with
       | .err er => .err er
       | .panic s => .panic s
       | .ok (v, r, hs') =>
@@ -199,40 +207,40 @@ def decVal (R : Registry) (gunzip : Bytes → Option Bytes) : Nat → Ty → Byt
     | .bad _ => .err "unsupported"
 
 /-- `popVector` after the constructor id: count, guard against the remaining input, elements -/
-def decVecBody (R : Registry) (gunzip : Bytes → Option Bytes) : Nat → Ty → Bytes → List Ty → DRes Val
-  | 0, _, _, _ => .err "fuel"
-  | fuel + 1, e, bs, hs =>
+def decVecBody (R : Registry) (gunzip : Bytes → Option Bytes) : Nat → Nat → Ty → Bytes → List Ty → DRes Val
+  | _, 0, _, _, _ => .err "fuel"
+  | dp, fuel + 1, e, bs, hs =>
     match popUint bs with
     | .err er => .err er
     | .panic s => .panic s
     | .ok (n, r) =>
       if r.length < n then .err "vectorSize"
       else
-        match decItems R gunzip fuel e n r hs with
+        match decItems R gunzip dp fuel e n r hs with
         | .ok (items, r', hs') => .ok (.vec false items, r', hs')
         | .err er => .err er
         | .panic s => .panic s
 
-def decItems (R : Registry) (gunzip : Bytes → Option Bytes) : Nat → Ty → Nat → Bytes → List Ty → DRes (List Val)
-  | _, _, 0, bs, hs => .ok ([], bs, hs)
-  | 0, _, _ + 1, _, _ => .err "fuel"
-  | fuel + 1, e, n + 1, bs, hs =>
-    match decVal R gunzip fuel e bs hs with
+def decItems (R : Registry) (gunzip : Bytes → Option Bytes) : Nat → Nat → Ty → Nat → Bytes → List Ty → DRes (List Val)
+  | _, _, _, 0, bs, hs => .ok ([], bs, hs)
+  | _, 0, _, _ + 1, _, _ => .err "fuel"
+  | dp, fuel + 1, e, n + 1, bs, hs =>
+    match decVal R gunzip dp fuel e bs hs with
     | .err er => .err er
     | .panic s => .panic s
     | .ok (v, r, hs') =>
-      match decItems R gunzip fuel e n r hs' with
+      match decItems R gunzip dp fuel e n r hs' with
       | .ok (vs, r', hs'') => .ok (v :: vs, r', hs'')
       | .err er => .err er
       | .panic s => .panic s
 
 /-- `decodeObject` after the constructor id (descriptors of the shape `wfDesc`) -/
-def decStruct (R : Registry) (gunzip : Bytes → Option Bytes) : Nat → CtorDesc → Bytes → List Ty → DRes Val
-  | 0, _, _, _ => .err "fuel"
-  | fuel + 1, d, bs, hs =>
+def decStruct (R : Registry) (gunzip : Bytes → Option Bytes) : Nat → Nat → CtorDesc → Bytes → List Ty → DRes Val
+  | _, 0, _, _, _ => .err "fuel"
+  | dp, fuel + 1, d, bs, hs =>
     if !wfDesc d then .err "descriptorShape"
     else
-      match decFields R gunzip fuel d.flagIndex 0 d.fields bs hs with
+      match decFields R gunzip dp fuel d.flagIndex 0 d.fields bs hs with
       | .ok (fs, r, hs') => .ok (.obj d.id fs, r, hs')
       | .err er => .err er
       | .panic s => .panic s
@@ -241,10 +249,10 @@ def decStruct (R : Registry) (gunzip : Bytes → Option Bytes) : Nat → CtorDes
 a tagged field whose bit is clear keeps its zero value, an `encoded_in_bitflags` one becomes `true`,
 every other field is decoded by its type -/
 def decFields (R : Registry) (gunzip : Bytes → Option Bytes) :
-    Nat → Option Nat → Nat → List FieldDesc → Bytes → List Ty → DRes (List Val)
-  | _, _, _, [], bs, hs => .ok ([], bs, hs)
-  | 0, _, _, _ :: _, _, _ => .err "fuel"
-  | fuel + 1, k, bitset, f :: fs, bs, hs =>
+    Nat → Nat → Option Nat → Nat → List FieldDesc → Bytes → List Ty → DRes (List Val)
+  | _, _, _, _, [], bs, hs => .ok ([], bs, hs)
+  | _, 0, _, _, _ :: _, _, _ => .err "fuel"
+  | dp, fuel + 1, k, bitset, f :: fs, bs, hs =>
     let k' : Option Nat := nextK k
     let hdr : Outcome (Nat × Bytes) := if k = some 0 then popUint bs else .ok (bitset, bs)
     match hdr with
@@ -258,29 +266,29 @@ def decFields (R : Registry) (gunzip : Bytes → Option Bytes) :
         | some fl => fl.inBits
         | none => false
       if skip then
-        match decFields R gunzip fuel k' w fs r0 hs with
+        match decFields R gunzip dp fuel k' w fs r0 hs with
         | .ok (vs, r, hs') => .ok (zeroOf f.ty :: vs, r, hs')
         | .err er => .err er
         | .panic s => .panic s
       else if isBit then
-        match decFields R gunzip fuel k' w fs r0 hs with
+        match decFields R gunzip dp fuel k' w fs r0 hs with
         | .ok (vs, r, hs') => .ok (.bool true :: vs, r, hs')
         | .err er => .err er
         | .panic s => .panic s
       else
-        match decVal R gunzip fuel f.ty r0 hs with
+        match decVal R gunzip dp fuel f.ty r0 hs with
         | .err er => .err er
         | .panic s => .panic s
         | .ok (v, r, hs') =>
-          match decFields R gunzip fuel k' w fs r hs' with
+          match decFields R gunzip dp fuel k' w fs r hs' with
           | .ok (vs, r', hs'') => .ok (v :: vs, r', hs'')
           | .err er => .err er
           | .panic s => .panic s
 
 /-- `decodeRegisteredObject`: the type is chosen from the constructor id -/
-def decRegistered (R : Registry) (gunzip : Bytes → Option Bytes) : Nat → Bytes → List Ty → DRes Val
-  | 0, _, _ => .err "fuel"
-  | fuel + 1, bs, hs =>
+def decRegistered (R : Registry) (gunzip : Bytes → Option Bytes) : Nat → Nat → Bytes → List Ty → DRes Val
+  | _, 0, _, _ => .err "fuel"
+  | dp, fuel + 1, bs, hs =>
     match popUint bs with
     | .err er => .err er
     | .panic s => .panic s
@@ -288,7 +296,7 @@ def decRegistered (R : Registry) (gunzip : Bytes → Option Bytes) : Nat → Byt
       if crc = crcVector then
         match hs with
         | [] => .err "mustParseSlicesExplicitly"
-        | .vec e :: hs' => decVecBody R gunzip fuel e r hs'
+        | .vec e :: hs' => decVecBody R gunzip dp fuel e r hs'
         | _ :: _ => .panic "reflect: Elem of a hint that is not a slice"
       else if crc = crcFalse || crc = crcTrue || crc = crcNull then .ok (.obj crc [], r, hs)
       else
@@ -297,7 +305,7 @@ def decRegistered (R : Registry) (gunzip : Bytes → Option Bytes) : Nat → Byt
         | some d =>
           match d.kind with
           | .enum => .ok (.obj crc [], r, hs)
-          | .struct => decStruct R gunzip fuel d r hs
+          | .struct => decStruct R gunzip dp fuel d r hs
           | .container =>
             match popUint r with
             | .err er => .err er
@@ -316,25 +324,40 @@ def decRegistered (R : Registry) (gunzip : Bytes → Option Bytes) : Nat → Byt
               match gunzip packed with
               | none => .err "gzip"
               | some plain =>
-                -- the packed object is decoded by a decoder of its own that is given the hints not used so far
-                match decRegistered R gunzip fuel plain hs with
-                | .ok (inner, _, _) => .ok (.obj crc [inner], r1, hs)
-                | .err er => .err er
-                | .panic s => .panic s
+                -- `Decoder.DecodeNestedObject` (called after the payload was unpacked): a decoder that already
+                -- works for `maxNestedDecoders` enclosing packed objects refuses; otherwise the packed object is
+                -- decoded by a decoder of its own, one level deeper, that is given the hints not used so far
+                if maxNestedDecoders ≤ dp then .err "nestedTooDeep"
+                else
+                  match decRegistered R gunzip (dp + 1) fuel plain hs with
+                  | .ok (inner, _, _) => .ok (.obj crc [inner], r1, hs)
+                  | .err er => .err er
+                  | .panic s => .panic s
 end
 
 /-- `tl.DecodeUnknownObject(data, hints...)` -/
 def decodeUnknown (R : Registry) (gunzip : Bytes → Option Bytes) (fuel : Nat) (hints : List Ty) (bs : Bytes) : Outcome Val :=
-  match decRegistered R gunzip fuel bs hints with
+  match decRegistered R gunzip 0 fuel bs hints with
   | .ok (v, _, _) => .ok v
   | .err e => .err e
   | .panic s => .panic s
 
 /-- `tl.Decode(data, &T{})` for the registered struct `id` -/
 def decodeNamed (R : Registry) (gunzip : Bytes → Option Bytes) (fuel : Nat) (id : Nat) (bs : Bytes) : Outcome Val :=
-  match decVal R gunzip fuel (.ptr id) bs [] with
+  match decVal R gunzip 0 fuel (.ptr id) bs [] with
   | .ok (v, _, _) => .ok v
   | .err e => .err e
   | .panic s => .panic s
+
+/-- the largest number of fields of a registered constructor -/
+def maxFields (R : Registry) : Nat := R.foldr (fun d a => max d.fields.length a) 0
+
+/-- Fuel that is never exhausted on an input of `L` bytes when no packed object unpacks to more than `G`
+bytes: `(F + 4)·(L + 4·G) + 6`, `F` = the largest number of fields of a registered constructor, 4 =
+`maxNestedDecoders` (theorem `decode_never_loops`, Props/C15). The fuel of the model bounds the DEPTH of the
+call chain — a sibling gets the fuel its predecessor got: reading a constructor id or a count takes 4 bytes
+and at most `F + 3` calls lie between two such reads; at most four packed levels are opened, each at most
+`G` bytes long. -/
+def fuelBound (R : Registry) (G L : Nat) : Nat := (maxFields R + 4) * (L + maxNestedDecoders * G) + 6
 
 end Mtv.TL
